@@ -92,8 +92,8 @@ StrBody == [
   slashes  |-> <<"x", "sl", "sl", "x", "sl", "x">>,   \* http://a/b
   comment  |-> <<"sl", "sl", "x", "lb">>,             \* // no [
   escslash |-> <<"bs", "sl">>,                        \* \/
-  nlesc    |-> <<"x", "bs", "x">>,                    \* a\nb\tc
-  uesc     |-> <<"bs", "x", "bs", "x">>,              \* \u0041\ud83d\ude00
+  nlesc    |-> <<"x", "bs", "x", "bs", "x">>,          \* a\nb\tc
+  uesc     |-> <<"bs", "x", "bs", "x", "bs", "x">>,    \* \u0041\ud83d\ude00
   unicode  |-> <<"x">>,                               \* multi-byte text
   huge     |-> <<"x">>,                               \* 200 000 letters
   keyword  |-> <<"x">>,                               \* FIND WHERE LIMIT
@@ -109,7 +109,7 @@ RawBody == [
   find   |-> <<"x">>,                                 \* FIND
   nul    |-> <<"x">>,                                 \* U+0000
   emoji  |-> <<"x">>,                                 \* a 4-byte scalar
-  cmt    |-> <<"sl", "sl", "x", "q", "lb", "lc", "nl">>,   \* // it's "quoted [ {  + newline
+  cmt    |-> <<"sl", "sl", "x", "q", "x", "lb", "x", "lc", "nl">>,   \* // it's "quoted [ {  + newline
   strfrag |-> <<"q", "lb", "bs", "q">> ]              \* "[\"   (opens a string that contains a bracket and an escaped quote)
 
 BrSym(s) == CASE s = "(" -> "lp" [] s = "[" -> "lb" [] s = "{" -> "lc"
